@@ -462,6 +462,7 @@ var replayDrivers = map[string]string{
 	"maskGo": "maskGo", "writeFrameHeader": "writeFrameHeader", "readFrameHeader": "readFrameHeader",
 	"validWireCloseCode": "validWireCloseCode", "(CloseError).bytesErr": "bytesErr",
 	"parseClosePayload": "parseClosePayload", "(*Conn).SetReadLimit": "SetReadLimit",
+	"(*Conn).readLoop": "readLoop", "(*Conn).handleControl": "handleControl", "(*msgReader).Read": "msgReaderRead",
 }
 
 var modelPair = regexp.MustCompile(`\(([^\s()]+) (#x[0-9a-fA-F]+|#b[01]+|true|false|\(_ bv\d+ \d+\))\)`)
@@ -504,7 +505,7 @@ func replayModel(e *sym.Engine, ob *sym.Obligation, repo, verif, replayDir strin
 	vals := parseModel(ob.Result.Output)
 	inputs := map[string]string{}
 	for k, v := range vals {
-		if strings.HasPrefix(k, "in$") || strings.HasPrefix(k, "gvcin$") {
+		if strings.HasPrefix(k, "in$") || strings.HasPrefix(k, "gvcin$") || strings.HasPrefix(k, "gvcrd") {
 			inputs[k] = v
 		}
 	}
@@ -524,7 +525,7 @@ func replayModel(e *sym.Engine, ob *sym.Obligation, repo, verif, replayDir strin
 	ovPath := filepath.Join(replayDir, nm+".overlay.json")
 	b, _ = json.Marshal(ov)
 	_ = os.WriteFile(ovPath, b, 0o644)
-	args := []string{"test", "-overlay", ovPath, "-vet=off", "-count=1", "-timeout", "60s", "-run", "^TestGvcReplay$", "."}
+	args := []string{"test", "-overlay", ovPath, "-vet=off", "-count=1", "-timeout", "30s", "-run", "^TestGvcReplay$", "."}
 	cmd := exec.Command("go", args...)
 	cmd.Dir = absRepo
 	cmd.Env = append(os.Environ(), "GOFLAGS=-mod=mod", "GOPROXY=off", "GOSUMDB=off", "GOTOOLCHAIN=local", "GVC_REPLAY_INPUT="+inPath)
